@@ -24,12 +24,18 @@ mcvars == <<ops, topics, cursors, ret, hist>>
 (* operation is inserted without a body (pay > 0: payload declared in the    *)
 (* header but never received).  hdr is a placeholder in the bounded model    *)
 (* (real header lengths are measured by the harness).                        *)
-Op(id, a, s, p, b) == [id |-> id, author |-> a, seq |-> s, hdr |-> 100 + s, pay |-> p, body |-> b]
+OpG(id, a, s, p, g, b) == [id |-> id, author |-> a, seq |-> s, hdr |-> 100 + s, pay |-> p, giga |-> g, body |-> b]
+Op(id, a, s, p, b) == OpG(id, a, s, p, 0, b)
 
 U4 == { Op("a1s0", "a1", 0, 3, TRUE), Op("a1s1", "a1", 1, 5, TRUE),
         Op("a1s1x", "a1", 1, 0, FALSE), Op("a2s1", "a2", 1, 7, TRUE) }
 U5 == U4 \cup { Op("a1s2", "a1", 2, 9, FALSE) }
 U6 == U5 \cup { Op("a2s0", "a2", 0, 2, TRUE) }
+\* header-only operations that declare huge payloads: "a2big" alone is 2^32 - 50 bytes, so that
+\* the header bytes push the total over u32::MAX; "a2g1" + "a2big" overflow on the payload sum
+Big == { OpG("a2big", "a2", 2, 1073741774, 3, FALSE), OpG("a2g1", "a2", 0, 8, 1, FALSE) }
+UB == { Op("a1s0", "a1", 0, 3, TRUE), Op("a2s1", "a2", 1, 7, TRUE) } \cup Big
+U6B == U6 \cup Big
 U9 == U6 \cup { Op("a1s3", "a1", 3, 4, TRUE), Op("a2s3", "a2", 3, 6, TRUE), Op("a2s3x", "a2", 3, 1, TRUE) }
 
 \* Cursor values: height maps author -> (log -> height), including the empty map and an
@@ -55,11 +61,13 @@ QHeights ==
     {[a |-> a, logs |-> L,
       res |-> {[l |-> l, h |-> Heights(a, L)[l]] : l \in DOMAIN Heights(a, L)}] :
         a \in Author, L \in SUBSET Log}
-\* ranged queries, grouped per (author, log); one row <<after, until, count, payload bytes, ids>>
-\* per pair of bounds drawn from B (the harness adds the real header lengths of `ids`)
+\* ranged queries, grouped per (author, log); one row <<after, until, count, payload bytes below
+\* the 2^30 units, ids, 2^30 units>> per pair of bounds drawn from B (the harness adds the real
+\* header lengths of `ids` and decides "fits into u32" with them)
 QRanges(B) ==
     {[a |-> a, l |-> l,
-      rows |-> {<<af, un, SizeCount(a, l, af, un), SizePay(a, l, af, un), InRange(a, l, af, un)>> :
+      rows |-> {<<af, un, SizeCount(a, l, af, un), SizePay(a, l, af, un), InRange(a, l, af, un),
+                  SizeGiga(a, l, af, un)>> :
                    af \in B, un \in B}] :
         a \in Author, l \in Log}
 QGet == {[id |-> o.id, present |-> HasOperation(o.id),
@@ -90,7 +98,7 @@ Rec(c) ==
 
 MCInsertOperation ==
     "ops" \in Families /\ \E o \in Universe, l \in Log :
-        /\ InsertOperation(o.id, o.author, l, o.seq, o.hdr, o.pay, o.body)
+        /\ InsertOperation(o.id, o.author, l, o.seq, o.hdr, o.pay, o.giga, o.body)
         /\ Rec([c |-> "insert", id |-> o.id, l |-> l])
 MCDeleteOperation ==
     "ops" \in Families /\ \E o \in Universe :
@@ -129,7 +137,7 @@ ExportState == PrintT(Line(hist, Queries(Bounds)))
 -----------------------------------------------------------------------------
 (* Invariants                                                               *)
 
-OpRecs == [author : Author, log : Log, seq : 0..MaxSeq + 1, hdr : Nat, pay : Nat, body : BOOLEAN]
+OpRecs == [author : Author, log : Log, seq : 0..MaxSeq + 1, hdr : Nat, pay : Nat, giga : 0..3, body : BOOLEAN]
 TypeOK ==
     /\ DOMAIN ops \subseteq {o.id : o \in Universe}
     /\ \A id \in DOMAIN ops : ops[id] \in OpRecs
